@@ -157,6 +157,44 @@ theorem every_op_gated :
   simp only [harea, bne_self_eq_false, Bool.false_or, List.all_eq_true] at this
   exact this c hc
 
+/-- Row `rt` holds, without a resource, every gate the specification demands in addition for `c`. -/
+def alsoSatisfied (rt : Route) (c : OpCall) : Bool :=
+  (Spec.alsoRequired c.op).all fun p => rt.gates.contains (p, .none)
+
+/-- **pubd_ops_need_pub_admin.**  Every operation of the publication server that a handler of the versioned API can
+reach is behind `pub-admin` as well – for every row of the dispatch table as it is in the source now (seed C13-r6
+moves the blanket check of `pubd::dispatch` into one arm: the list of stale publishers is then served to a role with
+`pub-list` alone). -/
+theorem pubd_ops_need_pub_admin :
+    ∀ rt ∈ routes, Spec.areaOf rt.path = .api → ∀ c ∈ rt.ops, alsoSatisfied rt c = true := by
+  have h : routes.all (fun rt => Spec.areaOf rt.path != .api || rt.ops.all (alsoSatisfied rt)) = true := by
+    decide +kernel
+  intro rt hrt harea c hc
+  have := List.all_eq_true.mp h rt hrt
+  simp only [harea, bne_self_eq_false, Bool.false_or, List.all_eq_true] at this
+  exact this c hc
+
+/-- For a caller: a request to the versioned API that reaches an operation of the publication server comes from a
+role whose GENERAL grant holds `pub-admin` (and every other permission `Spec.alsoRequired` names). -/
+theorem pubd_ops_need_pub_admin_sem (testbed : Bool) (id : String) (role : Role) (rt : Route)
+    (hrt : rt ∈ routes) (harea : Spec.areaOf rt.path = .api) (segs : List String) (c : OpCall)
+    (hc : c ∈ serverCalls testbed (.ok id role) rt segs) :
+    ∀ p ∈ Spec.alsoRequired c.op, role.isAllowed p none = true := by
+  unfold serverCalls at hc
+  split at hc
+  · rename_i hserved
+    have hgates := ((served_iff _ _ _ _).mp hserved).2.2
+    have hsat := pubd_ops_need_pub_admin rt hrt harea c hc
+    unfold alsoSatisfied at hsat
+    intro p hp
+    have hm : (p, Res.none) ∈ rt.gates := by
+      have := List.all_eq_true.mp hsat p hp
+      simpa [List.contains_iff_mem] using this
+    obtain ⟨res, hres, hal⟩ := (gate_ok_iff id role segs p .none).mp (hgates _ hm)
+    simp only [resolve, Option.some.injEq] at hres
+    subst hres; exact hal
+  · simp at hc
+
 /-- What that means for a caller: whenever a request to the versioned API reaches a server
 operation, the caller's role grants a permission the specification accepts for the operation, for the
 very CA (path segment) the operation is applied to; a per-CA operation on the trust anchor needs the
